@@ -360,13 +360,19 @@ def check_integrate_subset(ctx):
         sx, sy = slice_bounds(h.hstack[0][1]) if isinstance(h.hstack[0], list) else None, slice_bounds(h.hstack[1][1]) if isinstance(h.hstack[1], list) else None
         rx, ry = alg.array_fn('rev', N, x), alg.array_fn('rev', N, y)
         okk = bool(sx and sy and sx[0] == rx and sy[0] == ry)
-    ctx.expect(okk, 'CFG-11b', 'decreasing grid reversed together with its values', loc(fi), 'x and y are both reversed before integrating', 'a decreasing grid is not order-normalised consistently', 'grid-reversal')
+    if len(h.hstack) != 2 or not all(isinstance(s_, list) and len(s_) == 3 for s_ in h.hstack):
+        ctx.undecided('CFG-11b', 'decreasing grid reversed together with its values', loc(fi), 'the rule reads hstack([lower, interior, upper]); the function is written another way')
+    else:
+        ctx.expect(okk, 'CFG-11b', 'decreasing grid reversed together with its values', loc(fi), 'x and y are both reversed before integrating', 'a decreasing grid is not order-normalised consistently', 'grid-reversal')
     # swapped limits
     h = SubsetHooks((0, 3, 2, 1))
     I = Interp(repo, h)
     I.call(fi, [symarr('x', (N,), unit=num(1)), symarr('y', (N,), unit=num(1)), scalar(xmin, num(1)), scalar(xmax, num(1))])
     okk = len(h.hstack) == 2 and isinstance(h.hstack[0], list) and isinstance(h.hstack[0][0], Arr) and h.hstack[0][0].poly == xmax and h.hstack[0][2].poly == xmin
-    ctx.expect(okk, 'CFG-11b', 'limits given in decreasing order are swapped', loc(fi), 'integrates from min(limit) to max(limit)', 'limits are not order-normalised', 'limit-swap')
+    if len(h.hstack) != 2 or not all(isinstance(s_, list) and len(s_) == 3 for s_ in h.hstack):
+        ctx.undecided('CFG-11b', 'limits given in decreasing order are swapped', loc(fi), 'the rule reads hstack([lower, interior, upper]); the function is written another way')
+    else:
+        ctx.expect(okk, 'CFG-11b', 'limits given in decreasing order are swapped', loc(fi), 'integrates from min(limit) to max(limit)', 'limits are not order-normalised', 'limit-swap')
 
 
 def check_drivers(ctx):
@@ -509,6 +515,10 @@ def check_rebin_cache(ctx):
     # does reuse imply "same length and equal element by element"?  Substitute 0 for that fact: the condition must vanish.
     if reuse.is_zero():
         ctx.ok('CFG-11c', inst, where_, 'filters are re-binned for every SED (the cache is never reused)')
+        return
+    if reuse.is_const() and guard[0] == 'if' and any(isinstance(n_, ast.Call) and isinstance(n_.func, ast.Name) and repo.resolve_name(fi.module, n_.func.id) for n_ in ast.walk(guard[1].test)):
+        # the test is made by a helper of the package whose comparison the interpretation did not see through (it came out constant): no verdict
+        ctx.undecided('CFG-11c', inst, where_, 'the reuse test is delegated to a helper (%s) whose comparison of the grids was not modelled' % up(guard[1].test)[:60])
         return
     equal_atoms = [a for a in reuse.atoms() if a[0] == 'fn' and a[1] == 'all']
     killed = alg.rebuild(reuse, lambda a: Poly.const(0) if a in equal_atoms else None)
